@@ -277,6 +277,23 @@ def run_bounds(ctx, spec):
         if gotc and rc0 is not None and tuple(rc) != tuple(rc0):
             ctx.violation('bounds:cowat:changes-value', 'bounds flag changes the result: %r vs %r' % (rc, rc0), case)
     # sat / tsat
+    # the saturation line itself belongs to both ranges: saturated steam and saturated liquid at exactly the pressure the
+    # library's own sat() gives (the usual way of asking for them) get their values with range checking on
+    for t in lin(0.5, 349.5, int(700 / spec['f'])) + [0.01, 100.0, 250.0, 350.0]:
+        case = {'clause': 'bounds on the saturation line', 't': t}
+        with ctx.guard(case) as g:
+            ps = T.sat(t)
+            rs, rs0 = T.supst(t, ps, bounds=True), T.supst(t, ps)
+            rc, rc0 = T.cowat(t, ps, bounds=True), T.cowat(t, ps)
+        if g.raised is not None:
+            continue
+        ctx.evaluated()
+        ctx.count('bounds_checked')
+        ctx.count('saturation_line_states_range_checked')
+        if rs is None or rs[0] is None or tuple(rs) != tuple(rs0):
+            ctx.violation('bounds:supst:none-on-saturation-line', 'supst(%r, sat(%r), bounds=True) = %r, without range checking %r' % (t, t, rs, rs0), case)
+        if rc is None or rc[0] is None or tuple(rc) != tuple(rc0):
+            ctx.violation('bounds:cowat:none-on-saturation-line', 'cowat(%r, sat(%r), bounds=True) = %r, without range checking %r' % (t, t, rc, rc0), case)
     for t in lin(-1.0, 380.0, int(400 / spec['f'])) + [0.01 - 1e-9, 0.01 + 1e-9, TC1_C - 1e-9, TC1_C + 1e-9, -273.15, -300.0, 1e4]:
         case = {'clause': 'bounds sat', 't': t}
         with ctx.guard(case) as g:
